@@ -200,14 +200,14 @@ theorem wakeRecv_N (ex : Option Nat) (s : State) (c : Nat) (np : Bool) (evs : Li
     · split
       · exact h
       · simp only []
-        have h3 : ∀ (dl : List (Nat × Nat × Nat)) (reg : List (Nat × Nat)) (call : Nat),
-            N ex { s with parkedRecv := s.parkedRecv.filter (fun p => p.call != call), delivered := dl, ctxByID := reg } :=
-          fun dl reg call => N_sub ex s _ h (fun d => rfl) (List.Sublist.refl _) List.filter_sublist (Nat.le_refl _)
+        have h3 : ∀ (dl : List (Nat × Nat × Nat)) (reg : List (Nat × Nat)) (df : List Nat) (call : Nat),
+            N ex { s with parkedRecv := s.parkedRecv.filter (fun p => p.call != call), delivered := dl, ctxByID := reg, deliveredFor := df } :=
+          fun dl reg df call => N_sub ex s _ h (fun d => rfl) (List.Sublist.refl _) List.filter_sublist (Nat.le_refl _)
         split
-        · exact setCtx_N ex _ c _ (fun y => ⟨rfl, rfl, rfl, rfl, rfl⟩) (h3 _ _ _)
+        · exact setCtx_N ex _ c _ (fun y => ⟨rfl, rfl, rfl, rfl, rfl⟩) (h3 _ _ _ _)
         · split
-          · exact setCtx_N ex _ c _ (fun y => ⟨rfl, rfl, rfl, rfl, rfl⟩) (h3 _ _ _)
-          · exact h3 _ _ _
+          · exact setCtx_N ex _ c _ (fun y => ⟨rfl, rfl, rfl, rfl, rfl⟩) (h3 _ _ _ _)
+          · exact h3 _ _ _ _
 
 /-- the waiters of context c re-evaluate their conditions: the invariant holds again for c -/
 theorem wake_N (s : State) (c : Nat) (hex : (getCtx s c).isSome = true) (h : N (some c) s) : N none (wake s c).1 := by
@@ -841,7 +841,7 @@ theorem core_N (s : State) (now : Nat) (op : List String) (h : N none s) : ∀ r
     split at hr
     · simp at hr
     · rename_i c hc
-      have h0 : N none { s with nsent := s.nsent + 1 } :=
+      have h0 : N none { s with nsent := s.nsent + 1, sent := s.sent ++ [(s.nsent + 1, bytesOf b)] } :=
         N_sub none s _ h (fun d => rfl) (List.Sublist.refl _) (List.Sublist.refl _) (Nat.le_succ _)
       split at hr
       · simp at hr; subst hr; exact h0
@@ -855,21 +855,21 @@ theorem core_N (s : State) (now : Nat) (op : List String) (h : N none s) : ∀ r
           have hopen : c.closed = false := by
             simp only [Bool.or_eq_true, not_or, Bool.not_eq_true] at hclosed
             exact hclosed.2
-          have hc0 : getCtx { s with nsent := s.nsent + 1 } c.id = some c := by rw [hcid]; exact hc
-          obtain ⟨y1, hy1, hy1c⟩ := cancel_getCtx_closed { s with nsent := s.nsent + 1 } c.id c hc0
+          have hc0 : getCtx { s with nsent := s.nsent + 1, sent := s.sent ++ [(s.nsent + 1, bytesOf b)] } c.id = some c := by rw [hcid]; exact hc
+          obtain ⟨y1, hy1, hy1c⟩ := cancel_getCtx_closed { s with nsent := s.nsent + 1, sent := s.sent ++ [(s.nsent + 1, bytesOf b)] } c.id c hc0
           have h1 := cancel_N none _ c.id (by intro d hd; cases hd) h0
-          have h2 : N (some c.id) (setCtx { (cancel { s with nsent := s.nsent + 1 } c.id) with sendQ := (cancel { s with nsent := s.nsent + 1 } c.id).sendQ ++ [c.id] } c.id (fun y => { y with reqID := s.nsent + 1, queued := true, sendMsg := some (bytesOf b), sendFor := s.nsent + 1, sendAbort := false })) :=
+          have h2 : N (some c.id) (setCtx { (cancel { s with nsent := s.nsent + 1, sent := s.sent ++ [(s.nsent + 1, bytesOf b)] } c.id) with sendQ := (cancel { s with nsent := s.nsent + 1, sent := s.sent ++ [(s.nsent + 1, bytesOf b)] } c.id).sendQ ++ [c.id] } c.id (fun y => { y with reqID := s.nsent + 1, queued := true, sendMsg := some (bytesOf b), sendFor := s.nsent + 1, sendAbort := false })) :=
             setCtx_N_ex (some c.id) _ c.id _ (fun y => rfl) (by intro d hd; cases hd; rfl) (N_same (some c.id) _ _ h1 rfl rfl rfl rfl)
-          have hx2 : getCtx (setCtx { (cancel { s with nsent := s.nsent + 1 } c.id) with sendQ := (cancel { s with nsent := s.nsent + 1 } c.id).sendQ ++ [c.id] } c.id (fun y => { y with reqID := s.nsent + 1, queued := true, sendMsg := some (bytesOf b), sendFor := s.nsent + 1, sendAbort := false })) c.id
+          have hx2 : getCtx (setCtx { (cancel { s with nsent := s.nsent + 1, sent := s.sent ++ [(s.nsent + 1, bytesOf b)] } c.id) with sendQ := (cancel { s with nsent := s.nsent + 1, sent := s.sent ++ [(s.nsent + 1, bytesOf b)] } c.id).sendQ ++ [c.id] } c.id (fun y => { y with reqID := s.nsent + 1, queued := true, sendMsg := some (bytesOf b), sendFor := s.nsent + 1, sendAbort := false })) c.id
               = some { y1 with reqID := s.nsent + 1, queued := true, sendMsg := some (bytesOf b), sendFor := s.nsent + 1, sendAbort := false } :=
             getCtx_setCtx_eq _ c.id (fun y => { y with reqID := s.nsent + 1, queued := true, sendMsg := some (bytesOf b), sendFor := s.nsent + 1, sendAbort := false }) (fun y => rfl) y1 hy1
           have h3 := wake_N _ c.id (by rw [hx2]; rfl) h2
           -- no parked Send carries the new request number
-          have hps2 : (setCtx { (cancel { s with nsent := s.nsent + 1 } c.id) with sendQ := (cancel { s with nsent := s.nsent + 1 } c.id).sendQ ++ [c.id] } c.id (fun y => { y with reqID := s.nsent + 1, queued := true, sendMsg := some (bytesOf b), sendFor := s.nsent + 1, sendAbort := false })).parkedSend = s.parkedSend := by
-            show (cancel { s with nsent := s.nsent + 1 } c.id).parkedSend = s.parkedSend
+          have hps2 : (setCtx { (cancel { s with nsent := s.nsent + 1, sent := s.sent ++ [(s.nsent + 1, bytesOf b)] } c.id) with sendQ := (cancel { s with nsent := s.nsent + 1, sent := s.sent ++ [(s.nsent + 1, bytesOf b)] } c.id).sendQ ++ [c.id] } c.id (fun y => { y with reqID := s.nsent + 1, queued := true, sendMsg := some (bytesOf b), sendFor := s.nsent + 1, sendAbort := false })).parkedSend = s.parkedSend := by
+            show (cancel { s with nsent := s.nsent + 1, sent := s.sent ++ [(s.nsent + 1, bytesOf b)] } c.id).parkedSend = s.parkedSend
             rw [cancel_parkedSend]
-          have hpr2 : (setCtx { (cancel { s with nsent := s.nsent + 1 } c.id) with sendQ := (cancel { s with nsent := s.nsent + 1 } c.id).sendQ ++ [c.id] } c.id (fun y => { y with reqID := s.nsent + 1, queued := true, sendMsg := some (bytesOf b), sendFor := s.nsent + 1, sendAbort := false })).parkedRecv = s.parkedRecv := by
-            show (cancel { s with nsent := s.nsent + 1 } c.id).parkedRecv = s.parkedRecv
+          have hpr2 : (setCtx { (cancel { s with nsent := s.nsent + 1, sent := s.sent ++ [(s.nsent + 1, bytesOf b)] } c.id) with sendQ := (cancel { s with nsent := s.nsent + 1, sent := s.sent ++ [(s.nsent + 1, bytesOf b)] } c.id).sendQ ++ [c.id] } c.id (fun y => { y with reqID := s.nsent + 1, queued := true, sendMsg := some (bytesOf b), sendFor := s.nsent + 1, sendAbort := false })).parkedRecv = s.parkedRecv := by
+            show (cancel { s with nsent := s.nsent + 1, sent := s.sent ++ [(s.nsent + 1, bytesOf b)] } c.id).parkedRecv = s.parkedRecv
             rw [cancel_parkedRecv]
           obtain ⟨y3, hy3, hm3, hf3, ha3, hcl3⟩ := wake_keeps_pending _ c.id _ hx2 (by
             intro q hq
@@ -877,15 +877,15 @@ theorem core_N (s : State) (now : Nat) (op : List String) (h : N none s) : ∀ r
             have := h.bound q hq
             simp only [Option.isSome_some, Bool.true_and, beq_eq_false_iff_ne, ne_eq]
             omega)
-          obtain ⟨hsubS, hsubR⟩ := wake_parked_sub (setCtx { (cancel { s with nsent := s.nsent + 1 } c.id) with sendQ := (cancel { s with nsent := s.nsent + 1 } c.id).sendQ ++ [c.id] } c.id (fun y => { y with reqID := s.nsent + 1, queued := true, sendMsg := some (bytesOf b), sendFor := s.nsent + 1, sendAbort := false })) c.id
+          obtain ⟨hsubS, hsubR⟩ := wake_parked_sub (setCtx { (cancel { s with nsent := s.nsent + 1, sent := s.sent ++ [(s.nsent + 1, bytesOf b)] } c.id) with sendQ := (cancel { s with nsent := s.nsent + 1, sent := s.sent ++ [(s.nsent + 1, bytesOf b)] } c.id).sendQ ++ [c.id] } c.id (fun y => { y with reqID := s.nsent + 1, queued := true, sendMsg := some (bytesOf b), sendFor := s.nsent + 1, sendAbort := false })) c.id
           rw [hps2] at hsubS
           rw [hpr2] at hsubR
-          have hns3 : (wake (setCtx { (cancel { s with nsent := s.nsent + 1 } c.id) with sendQ := (cancel { s with nsent := s.nsent + 1 } c.id).sendQ ++ [c.id] } c.id (fun y => { y with reqID := s.nsent + 1, queued := true, sendMsg := some (bytesOf b), sendFor := s.nsent + 1, sendAbort := false })) c.id).1.nsent = s.nsent + 1 := by
+          have hns3 : (wake (setCtx { (cancel { s with nsent := s.nsent + 1, sent := s.sent ++ [(s.nsent + 1, bytesOf b)] } c.id) with sendQ := (cancel { s with nsent := s.nsent + 1, sent := s.sent ++ [(s.nsent + 1, bytesOf b)] } c.id).sendQ ++ [c.id] } c.id (fun y => { y with reqID := s.nsent + 1, queued := true, sendMsg := some (bytesOf b), sendFor := s.nsent + 1, sendAbort := false })) c.id).1.nsent = s.nsent + 1 := by
             rw [wake_nsent]
-            show (cancel { s with nsent := s.nsent + 1 } c.id).nsent = s.nsent + 1
+            show (cancel { s with nsent := s.nsent + 1, sent := s.sent ++ [(s.nsent + 1, bytesOf b)] } c.id).nsent = s.nsent + 1
             rw [cancel_nsent]
-          have hadd : ∀ (dl : Option Timer), N none { (wake (setCtx { (cancel { s with nsent := s.nsent + 1 } c.id) with sendQ := (cancel { s with nsent := s.nsent + 1 } c.id).sendQ ++ [c.id] } c.id (fun y => { y with reqID := s.nsent + 1, queued := true, sendMsg := some (bytesOf b), sendFor := s.nsent + 1, sendAbort := false })) c.id).1 with
-              parkedSend := (wake (setCtx { (cancel { s with nsent := s.nsent + 1 } c.id) with sendQ := (cancel { s with nsent := s.nsent + 1 } c.id).sendQ ++ [c.id] } c.id (fun y => { y with reqID := s.nsent + 1, queued := true, sendMsg := some (bytesOf b), sendFor := s.nsent + 1, sendAbort := false })) c.id).1.parkedSend ++ [{ call := natOf call, ctx := c.id, rid := s.nsent + 1, deadline := dl }] } := by
+          have hadd : ∀ (dl : Option Timer), N none { (wake (setCtx { (cancel { s with nsent := s.nsent + 1, sent := s.sent ++ [(s.nsent + 1, bytesOf b)] } c.id) with sendQ := (cancel { s with nsent := s.nsent + 1, sent := s.sent ++ [(s.nsent + 1, bytesOf b)] } c.id).sendQ ++ [c.id] } c.id (fun y => { y with reqID := s.nsent + 1, queued := true, sendMsg := some (bytesOf b), sendFor := s.nsent + 1, sendAbort := false })) c.id).1 with
+              parkedSend := (wake (setCtx { (cancel { s with nsent := s.nsent + 1, sent := s.sent ++ [(s.nsent + 1, bytesOf b)] } c.id) with sendQ := (cancel { s with nsent := s.nsent + 1, sent := s.sent ++ [(s.nsent + 1, bytesOf b)] } c.id).sendQ ++ [c.id] } c.id (fun y => { y with reqID := s.nsent + 1, queued := true, sendMsg := some (bytesOf b), sendFor := s.nsent + 1, sendAbort := false })) c.id).1.parkedSend ++ [{ call := natOf call, ctx := c.id, rid := s.nsent + 1, deadline := dl }] } := by
             intro dl
             apply N_addSend _ _ _ _ _ _ h3
             · refine ⟨y3, hy3, ?_, ?_, ?_, ?_, rfl⟩
